@@ -769,6 +769,87 @@ def run_float_tie(chk):
     chk.extra["float_program_cases"] = n
 
 
+# --------------------------------------------------------------------------------------------------------
+# Tie D: chains of unary operators written without parentheses (`- -a` is emitted as the JS decrement `--a`)
+# --------------------------------------------------------------------------------------------------------
+CHAIN_FORMS = [("negneg", "- -a"), ("negparenneg", "-(-a)"), ("notnot", "^ ^a"), ("negnot", "- ^a"), ("notneg", "^ -a")]
+
+
+def wrap_ty(ty, v):
+    bits, signed = TYPES[ty]
+    v &= (1 << bits) - 1
+    if signed and v >= 1 << (bits - 1):
+        v -= 1 << bits
+    return v
+
+
+def fmt_ty(ty, v):
+    if ty in BIG:
+        h, l = halves(v, BIG[ty][1])
+        return "%d:%d" % (h, l)
+    return str(v)
+
+
+def chain_spec(ty, name, x):
+    r = {"negneg": x, "negparenneg": x, "notnot": x, "negnot": wrap_ty(ty, x + 1), "notneg": wrap_ty(ty, x - 1)}[name]
+    return "%s/%s" % (fmt_ty(ty, r), fmt_ty(ty, x))
+
+
+def chain_signature(label, impl, spec):
+    _, ty, name, x = label.split()[:4]
+    x = int(x)
+    if ty not in SMALL or not SMALL[ty][1]:
+        return None
+    bits = SMALL[ty][0]
+    if name == "negneg" and impl == "%d/%d" % (x - 1, x - 1):
+        return "C06 unary-minus-of-unary-minus emitted as decrement"
+    if name == "negnot" and x == -1 and impl == "-0/-1":
+        return "C06 op=neg type=signed-non64 operand=0 observed=-0"
+    if name == "negnot" and x == (1 << (bits - 1)) - 1 and impl == "%d/%d" % (1 << (bits - 1), x):
+        return "C06 op=neg type=signed-non64 operand=MIN observed=-MIN-unwrapped"
+    return None
+
+
+def run_chain_tie(chk):
+    labels = []
+    src = ["package main", ""]
+    body = []
+    for ty in TYPES:
+        X = values(ty, chk.rng, 10)
+        src.append(arr("X_" + ty, ty, X))
+        for name, expr in CHAIN_FORMS:
+            fn = "f_%s_%s" % (ty, name)
+            src.append("func %s(a %s) string {\n\tr := %s\n\treturn s_%s(r) + \"/\" + s_%s(a)\n}" % (fn, ty, expr, ty, ty))
+            body.append("\t{\n\t\tl := \"\"\n\t\tfor i := 0; i < len(X_%s); i++ {\n\t\t\tl += %s(X_%s[i]) + \" \"\n\t\t}\n\t\tprintln(l)\n\t}" % (ty, fn, ty))
+            for x in X:
+                labels.append("chain %s %s %d" % (ty, name, x))
+    src.append("func main() {")
+    src += body
+    src.append("}")
+    job = {"id": "c06_chain", "files": {"main.go": "\n".join(src) + "\n", "helpers_js.go": HELPERS_JS, "helpers_native.go": HELPERS_NATIVE},
+           "variants": ["plain", "minify"], "native": True, "timeout": 60}
+    r = progs.run_jobs([job], par=1)[0]
+    nat = progs.observe_native(r["runs"]["native"])
+    tn = " ".join(nat[0]).split()
+    if nat[1] != "exit0" or len(tn) != len(labels):
+        raise RuntimeError("native chain program failed: %s" % nat[1])
+    specs = [chain_spec(l.split()[1], l.split()[2], int(l.split()[3])) for l in labels]
+    for l, a, b in zip(labels, tn, specs):
+        if l.split()[1] not in NATIVE_WIDTH_DIFFERS and a != b:
+            raise RuntimeError("MODEL-MISMATCH: chain spec %s: native %s spec %s" % (l, a, b))
+    for variant in ("plain", "minify"):
+        js = progs.observe_js(r["runs"][variant])
+        tj = " ".join(js[0]).split()
+        if js[1] != "exit0" or len(tj) != len(labels):
+            chk.add_mismatch("chain-programs", "program c06_chain " + variant, js[1], "exit0")
+            continue
+        for l, a, b in zip(labels, tj, specs):
+            chk.add_case("chain-programs", l + " @" + variant, kindkey="chain:" + l.split()[2])
+            if a != b:
+                chk.add_mismatch("chain-programs", l + " @" + variant, a, b, signature=chain_signature(l, a, b))
+    chk.extra["chain_program_cases"] = 2 * len(labels)
+
+
 def run(tier, seed):
     chk = C.Check("C06", tier, seed)
     chk.rule = ("(A) calls of the real 64-bit constructor/$mul64/$div64/$shiftLeft64/$shiftRightInt64/$shiftRightUint64/$flatten64/$imul under Node "
@@ -799,6 +880,7 @@ def run(tier, seed):
     groups = gen_units(tier, chk.rng)
     run_program_tie(chk, tier, groups)
     run_float_tie(chk)
+    run_chain_tie(chk)
     chk.extra["exhaustive"] = False
     chk.extra["exhaustive_subspace"] = ("all operand pairs of int8/uint8 for every binary operator and comparison, all three shapes"
                                         if tier == "thorough" else "none in the quick tier (boundary grid + random)")
